@@ -136,6 +136,30 @@ static int replay_fresh()
 	return 0;
 }
 
+// [C20.mss]: the accepted side of a connection must segment by the path MTU too
+struct mtu_config : default_config { int path_mtu(asio::ip::address, asio::ip::address) override { return 500; } };
+static int replay_mss()
+{
+	mtu_config cfg;
+	simulation sim(cfg);
+	asio::io_context srv(sim, asio::ip::make_address_v4("50.0.0.1")), cli(sim, asio::ip::make_address_v4("50.0.0.2"));
+	asio::ip::tcp::acceptor acc(srv);
+	acc.open(asio::ip::tcp::v4());
+	acc.bind(asio::ip::tcp::endpoint(asio::ip::address_v4::any(), 4000));
+	acc.listen(10);
+	asio::ip::tcp::socket s1(srv), c(cli);
+	std::vector<char> data(3000, 'x'), rbuf(10000);
+	std::vector<std::size_t> reads;
+	std::function<void()> rd = [&]() { c.async_read_some(asio::buffer(rbuf), [&](boost::system::error_code const& e, std::size_t n) { if (e) return; reads.push_back(n); rd(); }); };
+	acc.async_accept(s1, [&](boost::system::error_code const& e) { if (!e) s1.async_write_some(asio::buffer(data), [](boost::system::error_code const&, std::size_t) {}); });
+	c.async_connect(asio::ip::tcp::endpoint(asio::ip::make_address_v4("50.0.0.1"), 4000), [&](boost::system::error_code const& e) { if (!e) rd(); });
+	sim.run();
+	int bad = 0;
+	if (c.m_mss != 500) { std::printf("[C20.mss] connecting side: mss %d, path MTU 500\n", c.m_mss); bad = 1; }
+	if (s1.m_mss != 500) { std::printf("[C20.mss] accepted side: segment size %d although the configuration reports a path MTU of 500 for the two endpoints\n", s1.m_mss); bad = 1; }
+	return bad ? 3 : 0;
+}
+
 int main(int argc, char** argv)
 {
 	if (argc < 3) return 4;
@@ -143,5 +167,6 @@ int main(int argc, char** argv)
 	if (label.find("C12.deref") != std::string::npos || label.find("C12.vanish") != std::string::npos) return replay_drop_after_close();
 	if (label.find("C06.flight") != std::string::npos) return replay_flight();
 	if (label.find("C05.fresh") != std::string::npos) return replay_fresh();
+	if (label.find("C20.mss") != std::string::npos) return replay_mss();
 	return 4;
 }
